@@ -461,7 +461,7 @@ pub fn run(rep: &Report) {
             rep.fail(f);
         }
     }
-    let n = rep.tier.scale(120_000, 30);
+    let n = rep.tier.scale(360_000, 10);
     run_family(rep, "sort_plain", n, || (prop_oneof![4 => keys_strategy(14), 1 => keys_strategy(60)], any::<u64>()), |(xs, salt), l| {
         check_sort_plain(xs, *salt, l)?;
         check_unique(xs, *salt, l)
@@ -482,7 +482,7 @@ pub fn run(rep: &Report) {
     });
     run_family(rep, "agreement", n, || (prop::collection::vec(prop_oneof![2 => scalar(ValOpts { bytes: false, ..Default::default() }), 1 => value(ValOpts { depth: 2, max_len: 3, bytes: false, ..Default::default() })], 0..10), 0usize..12, str_pool(), any::<u64>()), |(xs, nth, sep, salt), l| check_agreement(xs, *nth, sep, *salt, l));
     run_family(rep, "split_join", n, || (prop::collection::vec(prop_oneof![3 => Just("a".to_string()), 3 => Just(",".to_string()), 1 => Just("ab".to_string()), 1 => Just("é".to_string()), 1 => Just(" ".to_string()), 1 => any::<char>().prop_map(|c| c.to_string())], 0..12).prop_map(|v| v.concat()), prop_oneof![3 => Just(",".to_string()), 2 => Just("a".to_string()), 1 => Just("ab".to_string()), 1 => Just(",,".to_string()), 1 => Just("".to_string()), 1 => Just("é".to_string()), 1 => any::<char>().prop_map(|c| c.to_string())]), |(s, p), l| check_split_join(s, p, l));
-    run_family(rep, "keys_values_pairs", rep.tier.scale(60_000, 30), || (prop::collection::vec((key_pool(), scalar(ValOpts { bytes: false, ..Default::default() })), 0..12), any::<u64>()), |(e, salt), l| check_kvp(&e.iter().cloned().collect(), *salt, l));
+    run_family(rep, "keys_values_pairs", rep.tier.scale(180_000, 10), || (prop::collection::vec((key_pool(), scalar(ValOpts { bytes: false, ..Default::default() })), 0..12), any::<u64>()), |(e, salt), l| check_kvp(&e.iter().cloned().collect(), *salt, l));
     for (lab, min) in [("sort:ok", 20_000), ("sort:refused", 10_000), ("sort:with-none", 5_000), ("sort:len>=21", 2_000), ("sort:visible-tie", 2_000), ("sorta:ok", 20_000), ("sorta:refused", 10_000), ("sorta:tie", 10_000), ("sorta:path=k.0", 10_000), ("group_by:ok", 20_000), ("group_by:multi-element-group", 10_000), ("group_by:none-discarded", 5_000), ("group_by:refused", 5_000), ("nth:in-range", 10_000), ("nth:out-of-range", 10_000), ("join:empty-element", 5_000), ("split:multi", 10_000), ("split:empty-part", 10_000), ("kvp:multi", 10_000)] {
         rep.floor(lab, min);
     }
